@@ -64,3 +64,11 @@ package client
 //@   ensures l.Adapters <= 2 ==> result == 0
 //@   # an RDMA interface is only counted when secondary slots remain for ordinary ones
 //@   ensures result > 0 ==> result <= l.Adapters - 2
+
+//@ # what the cloud reports for an instance type (DescribeInstanceTypes seen through getInstanceType)
+//@ pure func limitOfType(instanceType string) *Limits
+
+//@ func LimitProvider.GetLimit
+//@   trusted
+//@   modifies nothing
+//@   ensures result1 == nil && instanceType != "" ==> result0 != nil && result0 == limitOfType(instanceType)
